@@ -94,8 +94,8 @@ package types
 //@ spec shapeOK(t SessionType) bool = t != nil && size(t) >= 0 &&
 //@    (is(t, SendType) ==> child(SendType(t).Left, size(t)) && child(SendType(t).Right, size(t))) &&
 //@    (is(t, ReceiveType) ==> child(ReceiveType(t).Left, size(t)) && child(ReceiveType(t).Right, size(t))) &&
-//@    (is(t, SelectLabelType) ==> optionsShape(SelectLabelType(t).Branches, size(t))) &&
-//@    (is(t, BranchCaseType) ==> optionsShape(BranchCaseType(t).Branches, size(t))) &&
+//@    (is(t, SelectLabelType) ==> len(SelectLabelType(t).Branches) >= 1 && optionsShape(SelectLabelType(t).Branches, size(t))) &&
+//@    (is(t, BranchCaseType) ==> len(BranchCaseType(t).Branches) >= 1 && optionsShape(BranchCaseType(t).Branches, size(t))) &&
 //@    (is(t, UpType) ==> child(UpType(t).Continuation, size(t))) &&
 //@    (is(t, DownType) ==> child(DownType(t).Continuation, size(t)))
 //@ macro child(t SessionType, bound int) bool = t != nil && shapeOK(t) && size(t) >= 0 && size(t) < bound
@@ -482,15 +482,17 @@ package types
 //@    (forall y5 *SelectLabelType :: y5.Mode != nil) && (forall y6 *BranchCaseType :: y6.Mode != nil) &&
 //@    (forall y7 *UpType :: y7.From != nil && y7.To != nil) && (forall y8 *DownType :: y8.From != nil && y8.To != nil)
 
+//@ invariant[C09] modesNN()
+
 //@ contract interface Modality.String(self)
 //@   requires[C09] self != nil
 //@ contract interface Modality.FullString(self)
 //@   requires[C09] self != nil
 //@ contract interface SessionType.String(self)
-//@   requires[C09] shapeOK(self) && modesNN()
+//@   requires[C09] shapeOK(self)
 //@   decreases[C09] size(self)
 //@ contract interface SessionType.StringWithOuterModality(self)
-//@   requires[C09] shapeOK(self) && modesNN()
+//@   requires[C09] shapeOK(self)
 //@   decreases[C09] size(self)
 //@ contract stringifyBranches
 //@   inline
@@ -506,7 +508,7 @@ package types
 //@ contract interface Modality.Copy(self)
 //@   requires[C09] self != nil
 //@ contract CopyType
-//@   requires[C09] orig != nil ==> shapeOK(orig) && modesNN()
+//@   requires[C09] orig != nil ==> shapeOK(orig)
 //@   decreases[C09] ite(orig == nil, 0, size(orig))
 //@   loop 1 invariant 0 <= i && i <= len(p.Branches)
 //@   loop 1 decreases len(p.Branches) - i
@@ -515,3 +517,54 @@ package types
 // a type name prints as itself (the contractivity check uses the printed form as its visited-set key)
 //@ contract (*LabelType).String
 //@   ensures C10.labelString: result == q.Label
+
+// ---- C09: mode inference terminates: every name followed is new, and there are finitely many
+//@ macro envTypesOK(env LabelledTypesEnv) bool = forall n string :: has(env, n) ==> env[n].Type != nil && shapeOK(env[n].Type)
+//@ contract interface SessionType.inferModality(self, env, usedLabels)
+//@   requires[C09] envTypesOK(env) && subset(dom(usedLabels), dom(env))
+//@   decreases[C09] len(env) - len(usedLabels), size(self)
+// ---- C09: the contractivity check terminates for the same reason
+//@ contract interface SessionType.isContractive(self, env, snapshots)
+//@   requires[C09] subset(dom(snapshots), dom(env))
+//@   decreases[C09] len(env) - len(snapshots)
+// ---- C09: filling in modes keeps every mode slot filled
+//@ contract interface SessionType.assignUnsetModalities(self, env, cur)
+//@   requires[C09] cur != nil && envEntriesOK(dom(env), vals(env))
+//@ contract interface SessionType.inferModality(self, env, usedLabels)
+//@   ensures[C09] C09.inferNN: result != nil
+//@ contract commonMode
+//@   requires[C09] forall k int :: 0 <= k && k < len(modes) ==> modes[k] != nil
+//@   ensures[C09] C09.commonNN: result != nil
+//@ contract AddMissingModalities
+//@   requires[C09] envTypesOK(labelledTypesEnv) && envEntriesOK(dom(labelledTypesEnv), vals(labelledTypesEnv))
+//@ contract (*SelectLabelType).inferModality
+//@   loop[C09] 1 invariant forall k int :: 0 <= k && k <= idx ==> commonModes[k] != nil
+//@ contract (*BranchCaseType).inferModality
+//@   loop[C09] 1 invariant forall k int :: 0 <= k && k <= idx ==> commonModes[k] != nil
+//@ contract (*SelectLabelType).assignUnsetModalities
+//@   loop[C09] 1 invariant currentMode != nil
+//@ contract (*BranchCaseType).assignUnsetModalities
+//@   loop[C09] 1 invariant currentMode != nil
+
+// ---- C09: the well-formedness checks print the definition of a name in a diagnostic
+//@ contract interface SessionType.checkTypeModalities(self, env, cur)
+//@   requires[C09] envTypesOK(env)
+//@ contract CheckTypeWellFormedness
+//@   requires[C09] envTypesOK(labelledTypesEnv)
+
+// ---- C09: type equality (termination is not proved: see the evidence)
+//@ contract LookupBranchByLabel
+//@   ensures C07.lookupFound: result1 == (exists k int :: 0 <= k && k < len(branches) && branches[k].Label == label)
+//@   ensures C07.lookupAt: result1 ==> (exists k int :: 0 <= k && k < len(branches) && result0 == addrof(branches[k]) && branches[k].Label == label && (forall j int :: 0 <= j && j < k ==> branches[j].Label != label))
+//@   ensures C07.lookupNone: !result1 ==> result0 == nil
+//@   loop 1 invariant forall j int :: 0 <= j && j <= idx ==> branches[j].Label != label
+//@   pure
+//@ macro optionsOK(bs []Option) bool = forall k int :: 0 <= k && k < len(bs) ==> bs[k].SessionType != nil && shapeOK(bs[k].SessionType)
+//@ contract innerEqualType
+//@   requires[C09] shapeOK(type1) && shapeOK(type2) && snapshots != nil && envTypesOK(labelledTypesEnv)
+//@ contract equalTypeBranch
+//@   requires[C09] optionsOK(options1) && optionsOK(options2) && snapshots != nil && envTypesOK(labelledTypesEnv)
+//@ contract EqualType
+//@   requires[C09] shapeOK(type1) && shapeOK(type2) && envTypesOK(labelledTypesEnv)
+//@ contract interface SessionType.Modality(self)
+//@   ensures[C09] C09.modeNN: result != nil
